@@ -689,6 +689,9 @@ def eq(ctx, a, b):
         if isinstance(ca, ObjCell) or isinstance(cb, ObjCell):
             return z3.BoolVal(False)     # object identity
         raise Unsupported('== on heap objects')
+    if getattr(a, 'tname', '') == 'method' or \
+            getattr(b, 'tname', '') == 'method':
+        raise Unsupported('== on a bound method / unmodelled attribute')
     if type(a) is not type(b):
         # different static types: never equal (bool/int handled above)
         return z3.BoolVal(False)
